@@ -81,6 +81,8 @@ def gen_source(rng: random.Random) -> dict:
 
     def second_block():
         w.w("def 1 for actor A {\n    r1("); w.args(1, multi); w.w(");\n    hold;\n}\n")
+    # the file may begin with blank lines, indentation or comments: positions count from the first character of the file
+    w.w(rng.choice(["", "", "\n", "\n\n\n", "   ", "\t", "  \n \n", "// top\n", "/* a\n b */ ", "\r\n"]))
     if use_macro and layout == "macro-first":
         macro_block()
     w.w("def 0 {\n")
